@@ -24,7 +24,11 @@ SPEC = {
              # the same pipelines after silence: the read loop's 1 s read deadline expires before the first and before the
              # middle datagram of the data phase (idle-then-burst)
              {"kind": "pipeline", "label": "pipeline-idle", "seed_offset": 31, "quick": 8, "thorough": 160, "runner": RUNNER,
-              "env": {"VERIF_PIPE_IDLE_MS": "1100", "VERIF_PIPE_MAXDG": "300"}}],
+              "env": {"VERIF_PIPE_IDLE_MS": "1100", "VERIF_PIPE_MAXDG": "300"}},
+             # a stalling consumer: publishes are dropped while the queue is full; what is published after it recovers must
+             # again be the solo decode of one datagram (an encode buffer that keeps a dropped message shows here)
+             {"kind": "pipeline", "label": "pipeline-stall", "seed_offset": 59, "quick": 24, "thorough": 600, "model": False,
+              "runner": RUNNER, "env": {"VERIF_PIPE_STALL": "1"}}],
     "extra": [race_run],
     "search_factor": 2,
     "rule": "a case = protocol (ipfix/v9/v5/sflow) x 1..64 real worker goroutines x 20..2000 datagrams (decodable / "
